@@ -723,6 +723,26 @@ func c05a(c *Ctx) {
 				}
 				c.Check(okStore, "New/keeps-argument/"+fld.name, c.W.FuncPos(nw), "Emitter."+fld.name+" is the constructor's argument, unchanged", "Emitter."+fld.name+" is not simply the constructor's argument")
 			}
+			// the parser's constructor likewise: lexer, command configuration, font path, font id,
+			// line length and switches are kept as they were handed in (a "defensive copy" that
+			// aliases or drops entries changes what AutoVar commands, format() and poryswitch see)
+			if pn := c.Fn("parser.New"); pn != nil {
+				for _, fld := range []struct {
+					name string
+					par  int
+				}{{"l", 0}, {"commandConfig", 1}, {"fontConfigFilepath", 2}, {"defaultFontID", 3}, {"maxLineLength", 4}, {"compileSwitches", 5}} {
+					okStore := false
+					for _, st := range storesToField(pn, "parser", "Parser", fld.name) {
+						if fld.par < len(pn.Params) && st.Val == ssa.Value(pn.Params[fld.par]) {
+							okStore = true
+						} else {
+							okStore = false
+							break
+						}
+					}
+					c.Check(okStore, "parser.New/keeps-argument/"+fld.name, c.W.FuncPos(pn), "Parser."+fld.name+" is the constructor's argument, unchanged", "Parser."+fld.name+" is not simply the constructor's argument: what the parser works with is no longer what the caller configured")
+				}
+			}
 			// ... and the optimize argument goes nowhere else (a second field fed from it would be
 			// a second switch that the confinement of Emitter.optimize does not see)
 			if len(nw.Params) > 1 && nw.Params[1].Referrers() != nil {
